@@ -23,6 +23,7 @@ Definition code_of_res (x : res * Z) : rescode :=
   let '(r, z) := x in
   match r with
   | ROffer a => (0, if a then 1%N else 0%N, 0%N, z)
+  | ROfferWait => (0, 2%N, 0%N, z)
   | RRead i r => (1, i, r, z)
   | RStopped => (2, 0%N, 0%N, z)
   | RBlocked => (3, 0%N, 0%N, z)
@@ -45,17 +46,22 @@ Definition enc_store (st : store) : ostore :=
    option_map itemIndexArrayToBytes (s_di st), option_map itemIndexToBytes (s_si st),
    sort_items (map (fun p => (fst p, enc_req (snd p))) (s_items st))).
 
-(* per incarnation: died, number of client.Close calls (0 if died), results, store afterwards *)
-Definition iobs := (bool * nat * list rescode * ostore)%type.
+(* per incarnation: died, parked for ever in Start (hasMoreSpace.Wait), number of client.Close calls (0 if
+   died/parked), results, store afterwards.  run_act drops the budget when it reaches Block, so an
+   incarnation without result and without budget is a parked one. *)
+Definition iobs := (bool * bool * nat * list rescode * ostore)%type.
+
+Definition parked (r : irun) : bool :=
+  i_died r && match i_budget r with None => true | Some _ => false end.
 
 Definition obs_of (r : irun) : iobs :=
-  (i_died r, i_closed r, map code_of_res (i_obs r), enc_store (i_store r)).
+  (i_died r && negb (parked r), parked r, i_closed r, map code_of_res (i_obs r), enc_store (i_store r)).
 
 Definition hist_of (h : list (list opcode * option nat)) : history :=
   map (fun p => (map op_of (fst p), snd p)) h.
 
-Definition model_hist (cap : Z) (rs : bool) (h : list (list opcode * option nat)) : list iobs :=
-  map obs_of (run_history_obs (mkCfg cap rs) store0 (hist_of h)).
+Definition model_hist (cap : Z) (rs bl : bool) (h : list (list opcode * option nat)) : list iobs :=
+  map obs_of (run_history_obs (mkCfg cap rs bl) store0 (hist_of h)).
 
 (* ---- equality on the wire forms -------------------------------------------------------------- *)
 Definition bytes_eqb := list_eqb N.eqb.
@@ -68,8 +74,8 @@ Definition ostore_eqb (a b : ostore) : bool :=
   obytes_eqb r1 r2 && obytes_eqb w1 w2 && obytes_eqb d1 d2 && obytes_eqb s1 s2 &&
   list_eqb (fun p q => N.eqb (fst p) (fst q) && bytes_eqb (snd p) (snd q)) i1 i2.
 Definition iobs_eqb (a b : iobs) : bool :=
-  let '(d1, c1, r1, s1) := a in let '(d2, c2, r2, s2) := b in
-  Bool.eqb d1 d2 && Nat.eqb c1 c2 && list_eqb rescode_eqb r1 r2 && ostore_eqb s1 s2.
+  let '(d1, p1, c1, r1, s1) := a in let '(d2, p2, c2, r2, s2) := b in
+  Bool.eqb d1 d2 && Bool.eqb p1 p2 && Nat.eqb c1 c2 && list_eqb rescode_eqb r1 r2 && ostore_eqb s1 s2.
 
 (* the model DEcoders applied to the real bytes give back the model's decoded store *)
 Definition dec_idx_ok (b : option (list N)) (m : option N) : bool :=
@@ -95,12 +101,15 @@ Definition store_of (i : istore) : store :=
   let '(r, w, d, s, items) := i in mkStore r w d s items.
 
 Inductive vcase :=
-| CHist (cap : Z) (rs : bool) (h : list (list opcode * option nat)) (obs : list iobs)
-| CHistFrom (cap : Z) (rs : bool) (init : istore) (h : list (list opcode * option nat)) (obs : list iobs)
+| CHist (cap : Z) (rs bl : bool) (h : list (list opcode * option nat)) (obs : list iobs)
+| CHistFrom (cap : Z) (rs bl : bool) (init : istore) (h : list (list opcode * option nat)) (obs : list iobs)
 | CDec (buf : option (list N)) (idx : nat * N) (arr : nat * list N)
     (* observed bytesToItemIndex / bytesToItemIndexArray: class 0 ok, 1 value not set, 2 invalid *)
 | CEnc (n : N) (l : list N) (b1 b2 : list N)
 | CRetry (scenario wraps cls : nat)
+| CFin (f1 f2 f3 : bool) (init : istore) (cdi0 : list N) (index : N) (st' : ostore) (cdi' : list N) (cls : nat)
+    (* itemDispatchingFinish on a queue whose storage client fails the chosen calls: store afterwards, in-memory
+       dispatched list, class of the returned error (0 nil, 1 delete failed, 2 list update failed) *)
 | CDone (pieces : list nat) (cls : nat)
     (* refCountDone fed with the piece outcomes (0 ok, 1 failed, 2 shutdown) in completion order; class received by the request's Done *)
 | CSend (rs : list nat) (stop : option nat) (tail : nat) (cls attempts : nat).
@@ -118,13 +127,13 @@ Definition outcome_code (o : outcome) : nat := match o with OOk => 0 | OFailed =
 
 Definition check_case (c : vcase) : bool :=
   match c with
-  | CHist cap rs h obs =>
-      let runs := run_history_obs (mkCfg cap rs) store0 (hist_of h) in
+  | CHist cap rs bl h obs =>
+      let runs := run_history_obs (mkCfg cap rs bl) store0 (hist_of h) in
       list_eqb iobs_eqb (map obs_of runs) obs &&
       Nat.eqb (length runs) (length obs) &&
       forallb (fun p => dec_store_ok (snd (fst p)) (i_store (snd p))) (combine obs runs)
-  | CHistFrom cap rs init h obs =>
-      let runs := run_history_obs (mkCfg cap rs) (store_of init) (hist_of h) in
+  | CHistFrom cap rs bl init h obs =>
+      let runs := run_history_obs (mkCfg cap rs bl) (store_of init) (hist_of h) in
       list_eqb iobs_eqb (map obs_of runs) obs &&
       Nat.eqb (length runs) (length obs) &&
       forallb (fun p => dec_store_ok (snd (fst p)) (i_store (snd p))) (combine obs runs)
@@ -141,6 +150,9 @@ Definition check_case (c : vcase) : bool :=
        end)
   | CEnc n l b1 b2 => bytes_eqb (itemIndexToBytes n) b1 && bytes_eqb (itemIndexArrayToBytes l) b2
   | CRetry sc _ cls => Nat.eqb (outcome_code (outcome_of_send (send_end_of sc))) cls
+  | CFin f1 f2 f3 init cdi0 index st' cdi' cls =>
+      let '(st1, v1, k) := finish_with_errors f1 f2 f3 (mkVol 0 0 cdi0 0 false 1 0) index (store_of init) in
+      ostore_eqb (enc_store st1) st' && list_eqb N.eqb (cdi v1) cdi' && Nat.eqb k cls
   | CDone pieces cls => Nat.eqb (outcome_code (combine_outcomes (map outcome_of_code pieces))) cls
   | CSend rs stop tail cls attempts =>
       let '(e, k) := send_model (map attempt_of rs) stop (send_end_of tail) 0 in
@@ -152,18 +164,22 @@ Inductive vout :=
 | OHist (obs : list iobs) (evs : list event)
 | ODec (idx : N + derr) (arr : list N + derr)
 | OEnc (b1 b2 : list N)
+| OFin (st : ostore) (l : list N) (cls : nat)
 | ORetry (cls : nat)
 | OSend (cls attempts : nat).
 
 Definition model_out (c : vcase) : vout :=
   match c with
-  | CHist cap rs h _ => OHist (model_hist cap rs h) (snd (run_history (mkCfg cap rs) store0 (hist_of h)))
-  | CHistFrom cap rs init h _ =>
-      OHist (map obs_of (run_history_obs (mkCfg cap rs) (store_of init) (hist_of h)))
-            (snd (run_history (mkCfg cap rs) (store_of init) (hist_of h)))
+  | CHist cap rs bl h _ => OHist (model_hist cap rs bl h) (snd (run_history (mkCfg cap rs bl) store0 (hist_of h)))
+  | CHistFrom cap rs bl init h _ =>
+      OHist (map obs_of (run_history_obs (mkCfg cap rs bl) (store_of init) (hist_of h)))
+            (snd (run_history (mkCfg cap rs bl) (store_of init) (hist_of h)))
   | CDec buf _ _ => ODec (bytesToItemIndex buf) (bytesToItemIndexArray buf)
   | CEnc n l _ _ => OEnc (itemIndexToBytes n) (itemIndexArrayToBytes l)
   | CRetry sc _ _ => ORetry (outcome_code (outcome_of_send (send_end_of sc)))
+  | CFin f1 f2 f3 init cdi0 index _ _ _ =>
+      let '(st1, v1, k) := finish_with_errors f1 f2 f3 (mkVol 0 0 cdi0 0 false 1 0) index (store_of init) in
+      OFin (enc_store st1) (cdi v1) k
   | CDone pieces _ => ORetry (outcome_code (combine_outcomes (map outcome_of_code pieces)))
   | CSend rs stop tail _ _ =>
       let '(e, k) := send_model (map attempt_of rs) stop (send_end_of tail) 0 in
